@@ -23,6 +23,23 @@ def imp(name, wt, prop):
     json.dump(meta, open(os.path.join(d, 'meta.json'), 'w'), indent=1)
     print('imported', name, len(p.split('\n')), 'patch lines')
 
+def imp2(name, wt, k, prop):
+    """import mutant k of a two-mutant worktree: wt/mut<k>.diff and wt/demo<k>/"""
+    d = os.path.join(S, name); os.makedirs(d, exist_ok=True)
+    p = open(os.path.join(wt, 'mut%s.diff' % k)).read()
+    open(os.path.join(d, 'patch.diff'), 'w').write(p)
+    dem = os.path.join(wt, 'demo%s' % k)
+    if os.path.isdir(dem):
+        shutil.rmtree(os.path.join(d, 'demo'), ignore_errors=True)
+        shutil.copytree(dem, os.path.join(d, 'demo'))
+    files = [l[6:] for l in p.split('\n') if l.startswith('+++ b/')]
+    meta = dict(property=prop, name=name, files=files + ['%d files changed' % len(files)])
+    notes = os.path.join(dem, 'NOTES.md')
+    if os.path.exists(notes):
+        meta['needs_to_manifest'] = open(notes).read()[:1500]
+    json.dump(meta, open(os.path.join(d, 'meta.json'), 'w'), indent=1)
+    print('imported', name, len(p.split('\n')), 'patch lines')
+
 def verify(name):
     d = os.path.join(S, name)
     meta = json.load(open(os.path.join(d, 'meta.json')))
@@ -87,5 +104,6 @@ def run(name, ids):
 
 if __name__ == '__main__':
     if sys.argv[1] == 'import': imp(sys.argv[2], sys.argv[3], sys.argv[4])
+    elif sys.argv[1] == 'import2': imp2(sys.argv[2], sys.argv[3], sys.argv[4], sys.argv[5])
     elif sys.argv[1] == 'verify': verify(sys.argv[2])
     elif sys.argv[1] == 'run': run(sys.argv[2], sys.argv[3:])
